@@ -254,9 +254,25 @@ def normalize(scn, raw):
             m[e.get("loop", 0)] = len(m) + 1
         return m[e.get("loop", 0)]
 
+    # accept() has ended, as far as the exclusive guard is concerned, when the guard is about to
+    # be released ("guard.releasing", recorded BEFORE the release): the harness's own accept.ret
+    # comes later, and another accept may legitimately have got in between.  The AcceptRet event
+    # is therefore placed at the releasing point, with the outcome the later accept.ret reports.
+    ret_at, ret_skip = {}, set()
+    for j, e in enumerate(ev):
+        if e["e"] == "accept.ret":
+            k = next((i for i in range(j - 1, -1, -1) if ev[i]["tid"] == e["tid"] and ev[i]["e"] in ("guard.releasing", "accept.call")), None)
+            if k is not None and ev[k]["e"] == "guard.releasing":
+                ret_at[k] = j
+                ret_skip.add(j)
     out = []
     for i, e in enumerate(ev):
         n = e["e"]
+        if i in ret_at:
+            e = ev[ret_at[i]]
+            n = "accept.ret"
+        elif i in ret_skip:
+            continue
         if n == "adopt.call":
             out.append({"e": "AdoptCall", "p": e["p"]})
         elif n == "adopt.ret":
